@@ -313,6 +313,33 @@ impl Iterator for Src {
     }
 }
 
+/// 0, 1, 2, ... without end (a safety limit turns a runaway consumer into a panic)
+pub static ENDLESS_CALLS: AtomicUsize = AtomicUsize::new(0);
+pub struct Endless {
+    next: i64,
+}
+impl Endless {
+    pub fn new() -> Self {
+        ENDLESS_CALLS.store(0, Ordering::SeqCst);
+        Self { next: 0 }
+    }
+}
+impl Iterator for Endless {
+    type Item = i64;
+    fn next(&mut self) -> Option<i64> {
+        let n = ENDLESS_CALLS.fetch_add(1, Ordering::SeqCst);
+        if n > 3_000_000 {
+            panic!("runaway consumer of an endless source");
+        }
+        let x = self.next;
+        self.next += 1;
+        Some(x)
+    }
+    fn size_hint(&self) -> (usize, Option<usize>) {
+        (usize::MAX, None)
+    }
+}
+
 // ------------------------------------------------------------------ cases
 
 #[derive(Clone, Debug)]
@@ -384,7 +411,7 @@ pub fn parse_case(line: &str) -> Case {
         "-" => vec![],
         s => s.split(';').collect(),
     };
-    // ops = N;C|Cm; stages...; N; C|Cm
+    // ops = N;C|Cm; stages...; C|Cm; N
     let mut cl = vec![];
     let mut sets: Vec<(String, usize)> = vec![];
     for o in &ops {
@@ -400,7 +427,10 @@ pub fn parse_case(line: &str) -> Case {
             x => panic!("op {}", x),
         }
     }
-    assert!(sets.len() == 4, "expected N;C;..;N;C");
+    assert!(sets.len() == 4, "expected N;C;..;C;N");
+    let nts: Vec<usize> = sets.iter().filter(|x| x.0 == "N").map(|x| x.1).collect();
+    let css: Vec<(String, usize)> = sets.iter().filter(|x| x.0 != "N").cloned().collect();
+    assert!(nts.len() == 2 && css.len() == 2, "expected two num_threads and two chunk_size setters");
     let tt: Vec<&str> = f["term"].split(':').collect();
     let term = match tt[0] {
         "cv" => Term::Cv,
@@ -442,10 +472,10 @@ pub fn parse_case(line: &str) -> Case {
         input: list(f["in"]),
         nstages: cl.len(),
         cl,
-        nt1: sets[0].1,
-        cs1: chunk(&sets[1].0, sets[1].1),
-        nt2: sets[2].1,
-        cs2: chunk(&sets[3].0, sets[3].1),
+        nt1: nts[0],
+        cs1: chunk(&css[0].0, css[0].1),
+        nt2: nts[1],
+        cs2: chunk(&css[1].0, css[1].1),
         term,
         panic_at,
     }
@@ -604,7 +634,7 @@ pub fn observations() -> String {
         bursts.iter().map(|(t, n)| format!("{}x{}", t, n)).collect::<Vec<_>>().join(",")
     };
     format!(
-        "clog={} calls={} tcalls={} threads={} ctor_threads={} runs={} maxlive={} redthreads={} reentered={} srccalls={} bursts={}",
+        "clog={} calls={} tcalls={} threads={} ctor_threads={} runs={} maxlive={} redthreads={} reentered={} srccalls={} bursts={} endless={}",
         fmt_calls(0),
         calls,
         tcalls,
@@ -615,7 +645,8 @@ pub fn observations() -> String {
         red,
         gl.reentered.load(Ordering::SeqCst) as u8,
         src.len(),
-        bursts_s
+        bursts_s,
+        ENDLESS_CALLS.load(Ordering::SeqCst)
     )
 }
 
